@@ -125,7 +125,8 @@ func (l *quietLogger) takeErrs() []string {
 
 // ---------------------------------------------------------------- values
 
-// el describes one RES value. K: "p" primitive (T = JSON text), "w" primitive wrapped
+// el describes one RES value. Upper-case kinds "P", "W", "D" are "p", "w", "d" with the JSON
+// text T stored verbatim.  K: "p" primitive (T = JSON text), "w" primitive wrapped
 // as {"data":T}, "r" reference (T = rid), "s" soft reference, "d" data value (T = JSON
 // text of an object or array).
 type el struct {
@@ -161,6 +162,12 @@ func (e el) goValue() interface{} {
 		return res.SoftRef(e.T)
 	case "d":
 		return res.DataValue[interface{}]{Data: parseJSON(e.T)}
+	// raw variants: the JSON text is kept verbatim (no detour through float64 / Go maps), so
+	// numbers beyond 2^53, 1.0 vs 1, escapes and the key order inside data values survive
+	case "P":
+		return json.RawMessage(e.T)
+	case "W", "D":
+		return res.DataValue[json.RawMessage]{Data: json.RawMessage(e.T)}
 	}
 	panic("bad el kind")
 }
@@ -834,7 +841,55 @@ var elemPool = []el{
 }
 var keyPool = []string{"a", "b", "c", "d", "e", "f", "g", "_h", "_i", "k1", "k2", "k3", "name", "é", ""}
 
+// confusable: groups of values that are DIFFERENT for store.Value.Equal (byte-wise on the JSON
+// text of primitives and of the data member) but that a lossy or normalising comparison would
+// conflate: numbers colliding as float64 (around +-2^53, +-2^63, overflow, underflow, 18th digit),
+// 1 / 1.0 / 1e0, escapes, and key order / number spelling / such numbers nested in data values.
+var confusable = [][]el{
+	{{"P", "9007199254740992"}, {"P", "9007199254740993"}, {"P", "9007199254740992.0"}, {"P", "9.007199254740992e15"}},
+	{{"P", "-9007199254740992"}, {"P", "-9007199254740993"}},
+	{{"P", "9223372036854775807"}, {"P", "9223372036854775808"}, {"P", "9223372036854775809"}},
+	{{"P", "-9223372036854775808"}, {"P", "-9223372036854775809"}},
+	{{"P", "1e400"}, {"P", "2e400"}},
+	{{"P", "1e-400"}, {"P", "0"}, {"P", "-0"}, {"P", "0.0"}},
+	{{"P", "0.1234567890123456781"}, {"P", "0.1234567890123456782"}},
+	{{"P", "1"}, {"P", "1.0"}, {"P", "1e0"}, {"W", "1"}, {"W", "1.0"}},
+	{{"P", `"A"`}, {"P", `"\u0041"`}, {"W", `"\u0041"`}},
+	{{"P", `"\u00e9"`}, {"P", `"é"`}},
+	{{"D", `{"a":1,"b":2}`}, {"D", `{"b":2,"a":1}`}, {"D", `{"a":1.0,"b":2}`}, {"D", `{"a":1,"b":2,"a":1}`}},
+	{{"D", `{"n":9007199254740992}`}, {"D", `{"n":9007199254740993}`}},
+	{{"D", `[9007199254740992,9007199254740993]`}, {"D", `[9007199254740993,9007199254740992]`}, {"D", `[9007199254740992,9007199254740992]`}},
+	{{"D", `{"o":{"k":[1e400,{"x":-9223372036854775808}]}}`}, {"D", `{"o":{"k":[2e400,{"x":-9223372036854775809}]}}`}},
+	{{"D", `{"s":"A"}`}, {"D", `{"s":"\u0041"}`}},
+	{{"D", `[0.1234567890123456781]`}, {"D", `[0.1234567890123456782]`}, {"D", `[0.12345678901234567810]`}},
+	{{"D", `[]`}, {"D", `{}`}, {"D", `[[]]`}},
+}
+
+// sibling returns another member of e's confusable group (ok=false if e is in none).
+func sibling(r *Rng, e el) (el, bool) {
+	for _, g := range confusable {
+		for i, x := range g {
+			if x == e {
+				j := r.Intn(len(g) - 1)
+				if j >= i {
+					j++
+				}
+				return g[j], true
+			}
+		}
+	}
+	return e, false
+}
+
+func randConfusable(r *Rng) el {
+	g := confusable[r.Intn(len(confusable))]
+	return g[r.Intn(len(g))]
+}
+
 func randEl(r *Rng, small bool) el {
+	if r.Chance(18) {
+		return randConfusable(r)
+	}
 	if small {
 		return elemPool[r.Intn(5)]
 	}
@@ -897,6 +952,31 @@ func mutate(r *Rng, prev *valDesc, coll bool, maxLen int) *valDesc {
 	}
 	small := r.Chance(50)
 	edits := 1 + r.Intn(4)
+	// near-equal edits: an element becomes a sibling of its confusable group, or (collections)
+	// a confusable element gets its sibling as neighbour / two neighbours of one group swap
+	if r.Chance(45) {
+		for i := range d.Els {
+			sib, ok := sibling(r, d.Els[i])
+			if !ok || !r.Chance(60) {
+				continue
+			}
+			switch {
+			case coll && i+1 < len(d.Els) && r.Chance(35):
+				if _, same := sibling(r, d.Els[i+1]); same {
+					d.Els[i], d.Els[i+1] = d.Els[i+1], d.Els[i]
+					continue
+				}
+				d.Els[i] = sib
+			case coll && len(d.Els) < maxLen && r.Chance(30):
+				d.Els = append(d.Els[:i+1], append([]el{sib}, d.Els[i+1:]...)...)
+			default:
+				d.Els[i] = sib
+			}
+		}
+		if r.Chance(60) {
+			return d
+		}
+	}
 	for e := 0; e < edits; e++ {
 		n := len(d.Els)
 		if coll {
@@ -1408,6 +1488,29 @@ func main() {
 				}
 			}
 		}
+		// (c'') confusable pairs: every ordered pair x,y of one confusable group as
+		//       {k:x}->{k:y},  [x]->[y],  [x,y]->[y,x],  [1,x,2]->[1,y,2,x]
+		for _, g := range confusable {
+			for _, x := range g {
+				for _, y := range g {
+					if x == y {
+						continue
+					}
+					one := el{"p", "1"}
+					two := el{"p", "2"}
+					shape := []int{0, 1, 2}[k%3]
+					mcfg := fmt.Sprintf("m%d", k%nCfg)
+					ccfg := fmt.Sprintf("c%d", k%nCfg)
+					k++
+					add(caseDesc{Cfg: mcfg, Kind: "confusable_pair", Init: &valDesc{Keys: []string{"k", "z"}, Els: []el{x, one}, Shape: shape},
+						Ops: []opDesc{{"update", &valDesc{Keys: []string{"k", "z"}, Els: []el{y, one}, Shape: shape}}}})
+					add(caseDesc{Cfg: ccfg, Kind: "confusable_pair", Init: &valDesc{Els: []el{x}, Shape: shape},
+						Ops: []opDesc{{"update", &valDesc{Els: []el{y}, Shape: shape}}, {"update", &valDesc{Els: []el{x, y}, Shape: shape}},
+							{"update", &valDesc{Els: []el{y, x}, Shape: shape}}, {"update", &valDesc{Els: []el{one, x, two}, Shape: shape}},
+							{"update", &valDesc{Els: []el{one, y, two, x}, Shape: shape}}}})
+				}
+			}
+		}
 		// (d) random histories
 		n := 560
 		maxEl := 12
@@ -1461,6 +1564,8 @@ func main() {
 			"ALL ordered pairs of collections of length <= 3 (quick) / <= 4 (thorough) over {1,2,3} as store content a then Update(b); "+
 			"all pairs of models over 2 keys x {absent,1,2}; corner histories (create/delete/default/transform error; create-update-delete-recreate of the entry of a default-backed resource) per configuration; "+
 			"store variant 'wrapped' (missing value / duplicate reported with errors that wrap store.ErrNotFound / store.ErrDuplicate) on handlers with a Default for 35% of the random and all default-backed histories; "+
+			"confusable values (different for Value.Equal, equal for a lossy/normalising comparison: numbers around +-2^53, +-2^63, 1e400, 1e-400/0/-0, 18th fraction digit, 1/1.0/1e0, \\u escapes, key order / number spelling inside data values, also nested) stored verbatim: "+
+			"every ordered pair of each group as model and collection updates (replace, swap places, with context), 18% of random elements, and near-equal edits (element -> sibling, sibling neighbour, swap) in 45% of the random updates; "+
 			"random histories of 1-10 write transactions (Create/Update/Delete incl. failing ones) over models and collections of up to 12 "+
 			"primitives, references, soft references and data values, each value derived from the previous by insert/delete/replace/swap/move/duplicate "+
 			"edits, stored as natural Go values, []store.Value/map[string]store.Value or json.RawMessage; "+
